@@ -38,9 +38,8 @@ def run(ck):
             p["family"] = fam
             progs.append(p)
     byid = {p["id"]: p for p in progs}
-    cases = [{"id": p["id"], "src": p["src"], "inputs": [i for i in p.get("inputs", []) if i[1].get("k") != "hostfn"],
-              "mods": p.get("mods", []), "stdlib": bool(p.get("stdlib"))} for p in progs
-             if not any(i[1].get("k") == "hostfn" for i in p.get("inputs", []))]
+    cases = [{"id": p["id"], "src": p["src"], "inputs": p.get("inputs", []),
+              "mods": p.get("mods", []), "stdlib": bool(p.get("stdlib"))} for p in progs]
     res = vlib.run_cases(ck, "pipelines", cases, nproc=8)
     pairs, dumpsB, dumpsC = [], {}, {}
     plain = [p for p in progs if not p.get("stdlib")]
